@@ -1129,9 +1129,9 @@ tp_shutdown(tp_p tp) {
 
 	if (NULL == tp)
 		return;
-	if (0 != tp->shutdown)
+	/* Only first caller does the job, also with concurrent calls. */
+	if (0 != __sync_fetch_and_add(&tp->shutdown, 1))
 		return;
-	tp->shutdown ++;
 	LCB_VP(10, tp);
 	/* Private virtual thread. */
 	tp->pvt->state = TP_THREAD_STATE_STOP;
